@@ -187,7 +187,13 @@ func fzRandomNote(r *rand.Rand, i int, toks map[string][]fzTok, cats []string) (
 	if pre.cat != "std" {
 		cls += "/pre=" + pre.cat
 	}
-	return line, cls, nm, fzPositionedNote(note.name, args)
+	pos := fzPositionedNote(note.name, args)
+	if note.name == "literal" && strings.Contains(line, "// trailing") {
+		// the trailing text becomes (part of) the literal value, which is copied verbatim: a broken value
+		// fails only when the generated code is formatted
+		pos = false
+	}
+	return line, cls, nm, pos
 }
 
 // fzLevelA builds n notation-text cases.
